@@ -58,6 +58,9 @@ func spellings(thorough bool) []spelling {
 		{"\"\"\"a\r\nb\"\"\"", "string", "block string with CRLF"},
 		{`"""say "hi" """`, "string", "block string with lone quotes"},
 		{`"""back\slash\n"""`, "string", "block string with backslashes"},
+		{"\"\"\"\n    first\n  \n    second\n    \"\"\"", "string", "block string with a whitespace-only line shorter than the common indent"},
+		{"\"\"\"\n    first\n\t\n      third\n\"\"\"", "string", "block string with a TAB-only line and deeper indent"},
+		{"\"\"\"  lead\n    a\n   b   \n\"\"\"", "string", "block string with text on the first line and trailing spaces"},
 		{`0`, "int", "zero"},
 		{`-0`, "int", "minus zero"},
 		{`7`, "int", "small int"},
@@ -195,6 +198,12 @@ func buildCases(thorough bool) []tcase {
 					// omitted optional variable and explicit null variable
 					out = append(out, tcase{query: "query Q($v: " + vt + ") " + field(render("$v")), form: "omitted variable", pos: p.name, sp: sp, target: target})
 					out = append(out, tcase{query: "query Q($v: " + vt + ") " + field(render("$v")), form: "explicit null variable", pos: p.name, sp: sp, target: target, vars: map[string]any{"v": nil}})
+					// an explicit null stays null even when the variable has a default
+					out = append(out, tcase{query: "query Q($v: " + vt + " = " + value + ") " + field(render("$v")), form: "explicit null for a variable with a default", pos: p.name, sp: sp, target: target, vars: map[string]any{"v": nil}})
+					// variable names that collide with the canonical names handed out by the mapper
+					if !strings.HasPrefix(p.name, "whole") && sp.kind == "string" {
+						out = append(out, tcase{query: "query Q($b: " + vt + ", $a: String) " + field(strings.ReplaceAll(render("$v"), "$v", "$b")+", s: $a"), form: "variables named b then a", pos: p.name, sp: sp, target: target, vars: map[string]any{"__named": "b", "a": "second"}, hasVar: true})
+					}
 					out = append(out, tcase{query: "query Q($v: " + vt + ", $w: String) " + field(render("$v")+", s: $w"), form: "two variables one omitted", pos: p.name, sp: sp, target: target, vars: map[string]any{"v": nil}})
 				}
 			}
@@ -297,6 +306,12 @@ func TestCheck(t *testing.T) {
 		if rin == nil && !isControl(c) && !run.Mine(int64(ci)) {
 			continue
 		}
+		if strings.HasPrefix(c.sp.lit, `"""`) && !blockOraclesAgree(c.sp.lit) {
+			// two-oracle rule: the reference parser and an independent implementation
+			// of the specification's BlockStringValue() disagree on this spelling
+			run.Count("oracle_split_block_string", 1)
+			continue
+		}
 		doc, errs := gqlparser.LoadQuery(schema, c.query)
 		if errs != nil {
 			run.Count("not_judged_gqlparser_rejects", 1)
@@ -307,7 +322,15 @@ func TestCheck(t *testing.T) {
 		}
 		// variables: the JSON value of the literal, computed by the reference parser
 		vars := map[string]any{}
-		if c.hasVar {
+		if c.hasVar && c.vars["__named"] != nil {
+			vdoc, verr := parser.ParseQuery(&gast.Source{Input: "query Q($x: " + "String" + " = " + c.sp.lit + ") { echo }"})
+			if verr != nil || len(vdoc.Operations) == 0 {
+				run.Count("not_judged_literal_not_constant", 1)
+				continue
+			}
+			vars["b"] = refexec.LitValue(vdoc.Operations[0].VariableDefinitions[0].DefaultValue)
+			vars["a"] = "second"
+		} else if c.hasVar {
 			lit := c.vars["__literal"].(string)
 			vdoc, verr := parser.ParseQuery(&gast.Source{Input: "query Q($x: " + c.vars["__type"].(string) + " = " + lit + ") { echo }"})
 			if verr != nil || len(vdoc.Operations) == 0 || len(vdoc.Operations[0].VariableDefinitions) == 0 {
@@ -437,3 +460,60 @@ func problemSite(p string) string {
 // The engine's admission sequence is read from the tree under test (see
 // internal/engineseam) instead of being copied here.
 var seam, seamFirst, seamSecond = engineseam.Must()
+
+
+// specBlockStringValue implements BlockStringValue() of the GraphQL
+// specification (October 2021, section 2.9.4) on the raw text between the
+// triple quotes.
+func specBlockStringValue(raw string) string {
+	raw = strings.ReplaceAll(raw, `\"""`, `"""`)
+	raw = strings.ReplaceAll(raw, "\r\n", "\n")
+	raw = strings.ReplaceAll(raw, "\r", "\n")
+	lines := strings.Split(raw, "\n")
+	common := -1
+	for i, ln := range lines {
+		if i == 0 {
+			continue
+		}
+		indent := len(ln) - len(strings.TrimLeft(ln, " \t"))
+		if indent < len(ln) && (common == -1 || indent < common) {
+			common = indent
+		}
+	}
+	if common > 0 {
+		for i := 1; i < len(lines); i++ {
+			if len(lines[i]) >= common {
+				lines[i] = lines[i][common:]
+			} else {
+				lines[i] = ""
+			}
+		}
+	}
+	blank := func(s string) bool { return strings.TrimLeft(s, " \t") == "" }
+	for len(lines) > 0 && blank(lines[0]) {
+		lines = lines[1:]
+	}
+	for len(lines) > 0 && blank(lines[len(lines)-1]) {
+		lines = lines[:len(lines)-1]
+	}
+	return strings.Join(lines, "\n")
+}
+
+var blockAgree = map[string]bool{}
+
+func blockOraclesAgree(lit string) bool {
+	if v, ok := blockAgree[lit]; ok {
+		return v
+	}
+	ok := false
+	if len(lit) >= 6 {
+		want := specBlockStringValue(lit[3 : len(lit)-3])
+		if d, err := parser.ParseQuery(&gast.Source{Input: "query Q($x: String = " + lit + ") { echo }"}); err == nil && len(d.Operations) == 1 && len(d.Operations[0].VariableDefinitions) == 1 {
+			if got, _ := refexec.LitValue(d.Operations[0].VariableDefinitions[0].DefaultValue).(string); got == want {
+				ok = true
+			}
+		}
+	}
+	blockAgree[lit] = ok
+	return ok
+}
